@@ -31,6 +31,27 @@ case "$ID" in
       exit 2
     fi ;;
 esac
+case "$ID" in
+  C14|C13|C09|C20)
+    # instrument the working tree's server package and build the scheduler harness with the overlay
+    FILES="server/job.go server/server.go server/wrapped_http/serve_mux.go"
+    if [ "$ID" = C13 ]; then FILES="$FILES prover/marshal.go prover/insertion_proving_system.go prover/deletion_proving_system.go"; fi
+    if ! go build -C "$HERE" -modfile="$SCRATCH/go.mod" -o "$BIN/instrument" ./cmd/instrument 2> "$SCRATCH/build3.log"; then
+      cat "$SCRATCH/build3.log" >&2; echo "HARNESS-ERROR property=$ID instrumenter does not build" >&2; exit 2
+    fi
+    if ! "$BIN/instrument" -repo "$VERIF_REPO" -rt "$HERE/verifrt" -out "$SCRATCH/ins-$ID" $FILES 2> "$SCRATCH/ins.log"; then
+      cat "$SCRATCH/ins.log" >&2
+      "$BIN/vcheck" NOTEXPLORED "$ID" "$(cat "$SCRATCH/ins.log")"
+      exit 0
+    fi
+    if ! go build -C "$HERE" -modfile="$SCRATCH/go.mod" -overlay "$SCRATCH/ins-$ID/overlay.json" -tags verif -o "$BIN/vsched-$ID" ./cmd/vsched 2> "$SCRATCH/build4.log"; then
+      cat "$SCRATCH/build4.log" >&2
+      "$BIN/vcheck" NOTEXPLORED "$ID" "instrumented build failed: $(head -c 600 "$SCRATCH/build4.log")"
+      exit 0
+    fi
+    "$BIN/vsched-$ID" "$ID" "$@"
+    exit $? ;;
+esac
 "$BIN/vcheck" "$ID" "$@"
 rc=$?
 exit $rc
